@@ -3,6 +3,7 @@
    Exec.complete / fail_machine.  Tied to the code by K-life (arbitrary sequences of start / send / stop, waits on
    the virtual clock, concurrent start(), on timer, service and random machines; harness/props/c14.py). *)
 From XSM Require Import Model.Macro Proofs.FrameP Proofs.DoneP Proofs.LifeP.
+From XSM Require Import Model.TreeLib Gen.GenGeom Proofs.LifeBridge.
 
 (* `reach` is reachability along the edges uninitialized -> running -> (done | error) -> stopped, running -> stopped *)
 Theorem C14_reach_is_edge_closure : forall a b, reach a b = true ->
@@ -69,6 +70,23 @@ Theorem C14_failed_start_releases : forall m s s' e,
   async_start m s = (s', Some e) -> s_status s = Uninit -> s_status s' = Stopped /\ s_pending s' = [].
 Proof. exact async_start_failure_releases. Qed.
 Print Assumptions C14_failed_start_releases.
+
+(* TIE T: in which status send() drops the event and stop() returns at once is re-translated from the first statement of the
+   four methods in the current source (Gen/GenGeom.v) and is the model's `accepts` and the no-op cases of `stop_interp`, through
+   the names the code gives the five statuses *)
+Theorem C14_send_test_is_the_source_sync : forall m x, GenGeom.send_drops_sync m (status_name x) = negb (accepts Sync x).
+Proof. exact send_drops_sync_bridge. Qed.
+Print Assumptions C14_send_test_is_the_source_sync.
+Theorem C14_send_test_is_the_source_async : forall m x, GenGeom.send_drops_async m (status_name x) = negb (accepts Async x).
+Proof. exact send_drops_async_bridge. Qed.
+Print Assumptions C14_send_test_is_the_source_async.
+Theorem C14_stop_test_is_the_source : forall m s,
+  (GenGeom.stop_returns_sync m (status_name (s_status s)) = true -> stop_interp s = s) /\
+  (GenGeom.stop_returns_async m (status_name (s_status s)) = true -> stop_interp s = s) /\
+  (GenGeom.stop_returns_sync m (status_name (s_status s)) = false -> s_status (stop_interp s) = Stopped) /\
+  (GenGeom.stop_returns_async m (status_name (s_status s)) = false -> s_status (stop_interp s) = Stopped).
+Proof. exact stop_returns_bridge. Qed.
+Print Assumptions C14_stop_test_is_the_source.
 
 (* non-vacuity: a machine that completes during start() *)
 Definition n_ id par k ch ini d : node := Build_node id par k ch ini d [] [] [] None [] [] None None.
